@@ -188,6 +188,12 @@ theorem commits_monotone_without_reset (q : PState) (hq : PInv q) (hlive : q.liv
     exact absurd hc (by simp)
   · rw [hc]
 
+-- the hypothesis "no forced release" is needed for the COMMIT log (not for the stored offset, see
+-- `store_monotone_without_reset`): a pom thrown away dirty by `Close` and re-created from the store starts
+-- again at the stored position, so its first commit can be below the failed commit of its predecessor
+example : (prun (pinit none) [.manage, .mark 12 1, .snap, .verdict .fail, .aclose, .release true,
+            .manage, .mark 6 2, .snap]).commits = [(6, 2), (12, 1)] := by decide
+
 /-- The offset the coordinator stores never goes backwards along a run in which no ResetOffset is accepted,
     from every state in which the stored offset is not above what is in flight / pending (`Below`: true
     initially, and whenever the partition is clean). -/
